@@ -21,9 +21,10 @@ Definition uinit (d : design) : ustate := init_state unit unit unit (fun _ => tt
 
 (* the implementation's observation of one call:
    accepted (no exception; elaborate returned the very objects it was given),
+   logged: the history ran under the logging elaborator (false: under the default elaborator, no visit log),
    visit log oldest first: (entry, module, public io unchanged by the body),
    same: 1 output equals the fresh-process reference, 0 differs, 2 the call has no output *)
-Inductive iobs := IObs (accepted : bool) (log : list (nat * nat * bool)) (same : nat).
+Inductive iobs := IObs (accepted : bool) (logged : bool) (log : list (nat * nat * bool)) (same : nat).
 Definition c07case := (design * list (op * iobs))%type.
 
 (* specification side: m was elaborated by an earlier call iff it is reachable from one of that call's tops *)
@@ -43,7 +44,7 @@ Definition tops_of (o : op) : list mid :=
   match o with Elaborate t | Export t | Netlist t => t | _ => [] end.
 
 Definition chk_call (bf mk : nat) (st : ustate) (called : list mid) (o : op) (ob : iobs) : nat * ustate :=
-  let '(IObs acc log same) := ob in
+  let '(IObs acc logged log same) := ob in
   let '(st', r) := ustep bf mk st o in
   match r with
   | RBad _ => (3, st')
@@ -59,7 +60,7 @@ Definition chk_call (bf mk : nat) (st : ustate) (called : list mid) (o : op) (ob
     if negb prop_ok then (1, st') else
     let fresh := rev (firstn (List.length (s_log st') - List.length (s_log st)) (s_log st')) in
     let model_ok :=
-      keys_eqb log (log_keys unit unit fresh) &&
+      (negb logged || keys_eqb log (log_keys unit unit fresh)) &&
       forallb (fun e => let '(k, _, u) := e in (k =? bf) || u) log &&
       match o, r with
       | Add _, RRefused _ => negb acc
